@@ -18,6 +18,10 @@ import sqlimpl
 from common import Check, Driver, Infra, canon_json, log
 
 
+DIALECT_FINDINGS = {("merge", "tsql"): "D29", ("merge", "athena"): "D29", ("merge", "databricks"): "D29", ("merge", "trino"): "D29",
+                    ("update", "exasol"): "D30", ("update", "sqlite"): "D30", ("update", "tsql"): "D30"}
+
+
 def pairs_of(paths):
     return sorted({(p[0], p[-1]) for p in paths})
 
@@ -26,8 +30,13 @@ def gen_cases(chk):
     cases = []
     depth = 2 if chk.tier == "thorough" else 1
     for name, s in gensql.enumerate_shapes(depth):
-        if s[0] != "query":
+        # statements with a subquery inside a select item are outside the column-level correspondence: do not even run them
+        if s[0] != "query" and not gensql.item_has_subq(s):
             cases.append((name, s))
+    for name, s in gensql.enumerate_columns():
+        cases.append((name, s))
+    for name, s in gensql.enumerate_dml():
+        cases.append((name, s))
     n_rand = 5000 if chk.tier == "thorough" else 400
     R = gensql.Rand(chk.rng, max_depth=3 if chk.tier == "thorough" else 2, allow={"subq_item": False})
     for i in range(n_rand):
@@ -72,6 +81,8 @@ def impl_paths(i):
         return None
     return {"error": i["error"], "detail": {k: i.get(k) for k in ("etype", "site", "msg")}}
 
+
+TOLERATE_STAR_ORDER = False   # True while D16 (hash-ordered relation set under an unqualified `*`) was an open finding
 
 N_ORDERS = 60      # orders tried for the hash-ordered set of relations an unqualified `*` ranges over (5! covers <= 5 relations)
 
@@ -131,6 +142,8 @@ def mismatch(drv, stmt, dialect):
         return False
     if ip == model_paths(a):
         return False
+    if not TOLERATE_STAR_ORDER:
+        return True
     outs, _ = star_outcomes(drv, stmt)
     return not agrees_modulo_order(ip, outs)
 
@@ -150,6 +163,8 @@ def run(chk):
     st = sqlcheck.Stats()
     listed = {e["id"] for e in chk.findings if e.get("status") == "finding"}
     first = None
+    ref_fail = None
+    spec_fail = None
     for (ci, d), i in zip(jobs, impl):
         name, s = cases[ci]
         ip = impl_paths(i)
@@ -163,12 +178,34 @@ def run(chk):
         if gensql.item_has_subq(s):
             st.c["skipped:item-subquery"] += 1
             continue
-        if ip != m1 and ip != m2:
+        if "D16" not in listed:
+            # D16 is repaired (relations are visited in FROM order): the implementation must equal the model at order 0
+            m2 = m1
+        elif ip != m1 and ip != m2:
             # order-sensitive statement: ask the model for more iteration orders
             if ci not in outcome_cache:
                 outcome_cache[ci] = star_outcomes(drv, s)[0]
             if agrees_modulo_order(ip, outcome_cache[ci]):
                 m2 = ip
+        # the Lean specification Spec.colflow (independent of the extractor model) — covers derived tables and CTEs too
+        lspec = ans1[ci]["spec"][0].get("colflow")
+        if lspec is not None and isinstance(ip, list):
+            st.c["spec-covered"] += 1
+            if sorted(map(tuple, lspec)) != sorted(map(tuple, pairs_of(ip))):
+                st.c["impl!=spec"] += 1
+                if spec_fail is None:
+                    spec_fail = (s, d)
+        ref = reference_pairs(s)
+        if ref is not None and lspec is not None and sorted(map(tuple, ref)) != sorted(map(tuple, lspec)):
+            st.c["python-reference!=lean-spec"] += 1
+            if len(chk.stale) < 20:
+                chk.stale.append({"kind": "oracles-disagree", "sql": ans1[ci]["sql"][0], "python": ref, "lean": lspec})
+        if ref is not None and isinstance(ip, list):
+            st.c["reference-covered"] += 1
+            if [list(x) for x in pairs_of(ip)] != [list(x) for x in ref]:
+                st.c["impl!=reference"] += 1
+                if ref_fail is None:
+                    ref_fail = (s, d)
         if ip == m1 or ip == m2:
             st.c["agree"] += 1
             if m1 != m2:
@@ -178,9 +215,53 @@ def run(chk):
             if st.c["agree"] % 500 == 1:
                 chk.sample({"sql": ans1[ci]["sql"][0], "dialect": d, "pairs": pairs_of(ip) if isinstance(ip, list) else ip})
             continue
+        # dialect-specific loss of UPDATE / MERGE column lineage (findings D29 / D30): the reported paths are a subset of the
+        # model's (= ANSI) answer
+        fid = DIALECT_FINDINGS.get((s[0], d))
+        if fid and fid in listed and isinstance(ip, list) and isinstance(m1, list) and all(p_ in m1 for p_ in ip):
+            chk.known(fid)
+            st.c["known:" + fid] += 1
+            continue
         st.c["impl!=model"] += 1
         if first is None:
             first = (s, d)
+    if spec_fail is not None and ref_fail is None:
+        s, d = spec_fail
+
+        def spec_fails(c):
+            a_ = sqlcheck.model_eval(drv, [[c]])[0]
+            sp_ = a_["spec"][0].get("colflow")
+            if sp_ is None:
+                return False
+            i_ = sqlimpl.run_case({"sql": a_["sql"][0], "dialect": d, "want": ("tables", "columns")})
+            p_ = impl_paths(i_)
+            return isinstance(p_, list) and sorted(map(tuple, sp_)) != sorted(map(tuple, pairs_of(p_)))
+        small = sqlcheck.shrink(s, spec_fails, budget=300)
+        a = sqlcheck.model_eval(drv, [[small]])[0]
+        i = sqlimpl.run_case({"sql": a["sql"][0], "dialect": d, "want": ("tables", "columns")})
+        chk.violation("column lineage of a statement differs from the specification Spec.colflow",
+                      {"kind": "sql-columns-spec", "sql": a["sql"][0], "dialect": d, "ast": small, "impl_paths": impl_paths(i),
+                       "spec_pairs": a["spec"][0].get("colflow")})
+        first = None
+    if ref_fail is not None:
+        # failing input by the model-independent reference semantics: shrink with that oracle alone
+        s, d = ref_fail
+
+        def ref_fails(c):
+            r = reference_pairs(c)
+            if r is None:
+                return False
+            a_ = sqlcheck.model_eval(drv, [[c]])[0]
+            i_ = sqlimpl.run_case({"sql": a_["sql"][0], "dialect": d, "want": ("tables", "columns")})
+            p_ = impl_paths(i_)
+            return isinstance(p_, list) and [list(x) for x in pairs_of(p_)] != [list(x) for x in r]
+        small = sqlcheck.shrink(s, ref_fails, budget=300)
+        a = sqlcheck.model_eval(drv, [[small]])[0]
+        i = sqlimpl.run_case({"sql": a["sql"][0], "dialect": d, "want": ("tables", "columns")})
+        chk.violation("column lineage of a statement differs from the reference semantics of the property",
+                      {"kind": "sql-columns", "sql": a["sql"][0], "dialect": d, "ast": small, "impl_paths": impl_paths(i),
+                       "reference_pairs": reference_pairs(small)})
+        first = None
     if first is not None:
         s, d = first
         small = sqlcheck.shrink(s, lambda c: mismatch(drv, c, d), budget=400)
@@ -226,8 +307,10 @@ def run(chk):
 
 # ------------------------------------------------------------------------------------------- reference semantics
 def reference_pairs(stmt):
-    """(source, target) pairs by the property's text for FLAT statements: INSERT/CTAS/VIEW whose query is one SELECT block over base
-    tables only (no derived tables, CTEs, set operations, stars, subqueries).  Returns None when the shape is not covered."""
+    """(source, target) pairs by the property's text for the sub-grammar: INSERT/CTAS/VIEW whose query is one SELECT block over
+    base tables, or a set operation of such blocks (position by position), with or without an explicit column list.  Returns
+    None when the shape is not covered (derived tables, CTEs, stars, subqueries, un-aliased expression items, the recorded
+    deviation classes D6/D7)."""
     try:
         if stmt[0] == "insert":
             tgt, cols, q = stmt[3], stmt[4], stmt[5]
@@ -237,48 +320,84 @@ def reference_pairs(stmt):
             tgt, cols, q = stmt[1], stmt[3], stmt[4]
         else:
             return None
-        if q[0] != "select":
-            return None
-        items, frm = q[2], q[3]
-        rels = []   # (answers_to: set of qualifiers, printed table)
-        for fe in frm:
-            elems = [fe[0]] + [j[1] for j in fe[1]]
-            for e in elems:
-                if e[0] != "table":
-                    return None
-                parts, alias = e[1], e[2]
-                printed = (".".join(parts[:-1]) if len(parts) > 1 else "<default>") + "." + parts[-1]
-                answers = {alias} if alias else {parts[-1], printed}
-                rels.append((answers, printed))
-        if len(frm) > 1 and any(fe[1] for fe in frm):
-            return None  # D1 territory
-        tname = (".".join(tgt[:-1]) if len(tgt) > 1 else "<default>") + "." + tgt[-1]
-        out = set()
-        for j, it in enumerate(items):
-            e, alias = it[0], it[1]
-            refs = _refs(e)
-            if refs is None:
+        if q[0] == "select":
+            branches = [q]
+        elif q[0] == "setop":
+            branches = [q[1][0]] + [ob[1][0] for ob in q[2]]
+            if any(b[0] != "select" for b in branches):
                 return None
+        else:
+            return None
+        tname = (".".join(tgt[:-1]) if len(tgt) > 1 else "<default>") + "." + tgt[-1]
+        arity = len(branches[0][2])
+        if any(len(b[2]) != arity for b in branches):
+            return None
+        if cols and len(cols) != arity:
+            return None
+        names = []
+        for j, it in enumerate(branches[0][2]):
+            e, alias = it[0], it[1]
             if cols:
-                if len(cols) != len(items):
-                    return None
-                name = cols[j]
+                names.append(cols[j])
             elif alias:
-                name = alias
+                names.append(alias)
             elif e[0] == "col":
-                name = e[2]
+                names.append(e[2])
             else:
-                return None   # display name of an un-aliased expression: not legislated
-            for (qual, c) in refs:
-                if qual is not None:
-                    owners = [p for a, p in rels if qual in a]
-                    if len(owners) != 1:
+                return None           # display name of an un-aliased expression: not legislated
+        if len(set(names)) != len(names):
+            return None
+        # an unqualified name that is ALSO referenced with a qualifier somewhere in the statement: the assembler then takes the
+        # table that visibly has such a column as evidence (late resolution against the graph) — not legislated either way
+        allrefs = []
+        for b in branches:
+            for it in b[2]:
+                r = _refs(it[0])
+                if r is None:
+                    return None
+                allrefs += r
+        # ... anywhere in the statement (WHERE / ON / subqueries included)
+        qualified_names = {n[2] for n in gensql._walk(stmt) if isinstance(n, list) and len(n) == 3 and n[0] == "col" and n[1]}
+        if any(q_ is None and c in qualified_names for q_, c in allrefs):
+            return None
+        out = set()
+        for bi, b in enumerate(branches):
+            rels = []   # (answers_to, printed)
+            for fe in b[3]:
+                for e in [fe[0]] + [j[1] for j in fe[1]]:
+                    if e[0] != "table":
                         return None
-                    out.add((owners[0] + "." + c, tname + "." + name))
-                elif len(rels) == 1:
-                    out.add((rels[0][1] + "." + c, tname + "." + name))
-                else:
-                    out.add((c, tname + "." + name))      # unresolved: reported with its candidates, printed bare
+                    parts, alias = e[1], e[2]
+                    printed = (".".join(parts[:-1]) if len(parts) > 1 else "<default>") + "." + parts[-1]
+                    rels.append(({alias} if alias else {parts[-1], printed}, printed, parts[-1]))
+            # D7 class: an alias equal to another relation's bare name
+            for a1, p1, _ in rels:
+                for a2, p2, bare2 in rels:
+                    if p1 != p2 and (bare2 in a1):
+                        return None
+            if len({p for _, p, _ in rels}) != len(rels):
+                return None            # the same table twice in one scope
+            if any(p == tname for _, p, _ in rels):
+                return None            # the statement reads its own target: the target's columns then count as evidence for
+                                       # unqualified names (late resolution against the graph) — not legislated
+            for j, it in enumerate(b[2]):
+                refs = _refs(it[0])
+                if refs is None:
+                    return None
+                if bi == 0 and not refs and len(branches) > 1:
+                    return None        # D6 class: source-less item in the first branch of a set operation
+                for (qual, c) in refs:
+                    if qual is not None:
+                        owners = [p for a, p, _ in rels if qual in a]
+                        if len(owners) != 1:
+                            return None
+                        out.add((owners[0] + "." + c, tname + "." + names[j]))
+                    elif len(rels) == 1:
+                        out.add((rels[0][1] + "." + c, tname + "." + names[j]))
+                    elif not rels:
+                        return None
+                    else:
+                        out.add((c, tname + "." + names[j]))      # unresolved: reported with its candidates, printed bare
         return sorted(out)
     except Exception:
         return None
@@ -335,5 +454,13 @@ def replay(chk, obj):
         ref = reference_pairs(r["ast"])
         print(json.dumps({"sql": a["sql"][0], "impl_pairs": pairs_of(ip) if isinstance(ip, list) else ip, "reference_pairs": ref}, indent=1))
         return 1 if ref is not None and isinstance(ip, list) and pairs_of(ip) != [list(x) for x in ref] and pairs_of(ip) != ref else 0
+    if r.get("kind") == "sql-columns-spec":
+        drv = Driver()
+        a = sqlcheck.model_eval(drv, [[r["ast"]]])[0]
+        i = sqlimpl.run_case({"sql": a["sql"][0], "dialect": r["dialect"], "want": ("tables", "columns")})
+        ip = impl_paths(i)
+        sp = a["spec"][0].get("colflow")
+        print(json.dumps({"sql": a["sql"][0], "impl_pairs": pairs_of(ip) if isinstance(ip, list) else ip, "spec_pairs": sp}, indent=1))
+        return 1 if sp is not None and isinstance(ip, list) and sorted(map(tuple, sp)) != sorted(map(tuple, pairs_of(ip))) else 0
     print("replay file names no concrete input:", json.dumps(r)[:600])
     return 1
